@@ -4,6 +4,9 @@ import (
 	"context"
 	"errors"
 	"fmt"
+	"github.com/jeroenrinzema/psql-wire/codes"
+	psqlerr "github.com/jeroenrinzema/psql-wire/errors"
+	"net"
 	"strings"
 
 	wire "github.com/jeroenrinzema/psql-wire"
@@ -32,6 +35,8 @@ func c01Letters() []pwLetter {
 		{Name: "p(err)", Bytes: pgproto.Password("err"), Accept: "no", Outcome: "fail"},
 		{Name: "p(validator returns true together with an error)", Bytes: pgproto.Password("errtrue"), Accept: "no", Outcome: "fail"},
 		{Name: "p(empty password)", Bytes: pgproto.Password(""), Accept: "no", Outcome: "reject"},
+		{Name: "p(validator fails with an error of severity WARNING)", Bytes: pgproto.Password("warn"), Accept: "no", Outcome: "fail"},
+		{Name: "p(validator fails with an error of severity NOTICE)", Bytes: pgproto.Password("notice"), Accept: "no", Outcome: "fail"},
 		{Name: "p(validator rejects and returns a nil context)", Bytes: pgproto.Password("nilctx"), Accept: "no", Outcome: "reject"},
 		{Name: "p(validator fails and returns a nil context)", Bytes: pgproto.Password("nilctxerr"), Accept: "no", Outcome: "fail"},
 		{Name: "p without NUL", Bytes: pgproto.Msg('p', []byte("good")), Accept: "no"},
@@ -248,6 +253,10 @@ func c01Server(calls *c01Calls, auth bool) (*harness.One, error) {
 			return ctx, false, errors.New("validator backend unavailable")
 		case "errtrue":
 			return ctx, true, errors.New("credentials match but the audit record could not be written")
+		case "warn":
+			return ctx, false, psqlerr.WithSeverity(errors.New("password expires soon (and does not match)"), psqlerr.LevelWarning)
+		case "notice":
+			return ctx, false, psqlerr.WithSeverity(psqlerr.WithCode(errors.New("account locked"), codes.InvalidPassword), psqlerr.Severity("NOTICE"))
 		case "nilctx":
 			return nil, false, nil // a rejection that hands no context back
 		case "nilctxerr":
@@ -271,12 +280,25 @@ func c01Server(calls *c01Calls, auth bool) (*harness.One, error) {
 	if auth {
 		opts = append(opts, wire.SessionAuthStrategy(wire.ClearTextPassword(validate)))
 	}
+	if c01Remote != nil {
+		srv, err := harness.NewServer(calls.rec.ParseFn(), opts...)
+		if err != nil {
+			return nil, err
+		}
+		mc := memnet.NewConn("mem:client1")
+		mc.RemoteOverride, mc.LocalOverride = c01Remote, c01Remote
+		calls.rec.Conn = mc
+		return &harness.One{Server: srv, Conn: srv.ConnectWith(mc)}, nil
+	}
 	one, err := harness.StartOne(calls.rec.ParseFn(), opts...)
 	if err == nil {
 		calls.rec.Conn = one.C
 	}
 	return one, err
 }
+
+// c01Remote, when set, is the address (local and remote) the transport of the next c01Server connection reports.
+var c01Remote net.Addr
 
 func evKinds(evs []script.Ev) []string {
 	var out []string
@@ -504,6 +526,27 @@ func c01Enumerate(tier string, emit explore.Emit) {
 		emit(explore.Case{Family: "login-sequence", Size: 20 + len(seq), Desc: func() any { return map[string]any{"attempts_db_user_password": fmt.Sprint(seq)} },
 			Run: func() explore.Result { return c01RunSequence(seq) }})
 	})
+	// the kind of transport does not matter: over a unix-domain socket (and TCP) credentials are asked for as always
+	for _, kind := range []string{"unix", "tcp6", "tcp4"} {
+		for _, l := range c01Letters() {
+			for _, pipe := range []bool{true, false} {
+				kind, l, pipe := kind, l, pipe
+				var cont []contLetter
+				if !l.EOF {
+					cont = c01Cont()[:1]
+				}
+				emit(explore.Case{Family: "auth", Size: 2,
+					Desc: func() any {
+						return map[string]any{"startup": "user only", "in_place_of_password": l.Name, "pipelined_in_one_segment": pipe, "transport_address_kind": kind}
+					},
+					Run: func() explore.Result {
+						c01Remote = map[string]net.Addr{"unix": &net.UnixAddr{Name: "/var/run/postgresql/.s.PGSQL.5432", Net: "unix"}, "tcp6": &net.TCPAddr{IP: net.ParseIP("::1"), Port: 5432}, "tcp4": &net.TCPAddr{IP: net.IPv4(127, 0, 0, 1), Port: 5432}}[kind]
+						defer func() { c01Remote = nil }()
+						return c01Run(0, l, cont, pipe)
+					}})
+			}
+		}
+	}
 	letters := c01Letters()
 	contA := c01Cont()
 	depth := c01Depth(tier)
